@@ -1,0 +1,30 @@
+//go:build verif
+
+package rpc
+
+// Contracts for the deductive verifier in /verif (govc). Comments only; build tag "verif".
+//
+// C19: with authentication enabled the permissions of a request are those of its verified token (none
+// without a valid token: the proxy then falls back to the default, public-only, permissions); services
+// are registered behind the permissioned proxy with all four levels valid and "public" as default.
+// (A-P2P: go-jsonrpc's PermissionedProxy enforces the perm tags; auth.Handler attaches the permissions
+// returned by Verify.)
+
+//@ pure func jwtVerified(verifier jwt.Verifier, raw []byte) bool
+//@ func (*Server).verifyAuth
+//@   property C19
+//@   ensures s.authDisabled ==> err == nil && result0 == perms.AllPerms
+//@   ensures !s.authDisabled && err == nil ==> jwtVerified(s.verifier, bytesOf(token))
+
+//@ extern github.com/filecoin-project/go-jsonrpc/auth.PermissionedProxy
+//@   effect $Proxied := validPerms == perms.AllPerms && defaultPerms == perms.DefaultPerms
+
+//@ extern (*github.com/filecoin-project/go-jsonrpc.RPCServer).Register
+//@   params srv namespace handler
+//@   effect $RegisteredProxy := $Proxied
+
+//@ func (*Server).RegisterService
+//@   property C19
+//@   noframe
+//@   requires !$Proxied
+//@   ensures !s.authDisabled ==> $Proxied && $RegisteredProxy
